@@ -31,6 +31,12 @@ fn neg_exact_sum<T: Flt>(terms: &[T]) -> Option<(Q, f64)> {
 }
 
 fn check_value<T: Flt>(bad: &mut Vec<String>, what: &str, got: T, terms: &[T], tag: &str) {
+    let n0 = bad.len();
+    check_value0(bad, what, got, terms, tag);
+    // a failure that only shows for a non-canonical pairing of layouts is (also) a layout dependence (C20)
+    if tag != "c/c" && !bad[..n0].iter().any(|b| b.contains("[c/c]") && b.starts_with(what)) { for b in bad[n0..].iter_mut() { *b = format!("LAYOUT {}", b); } }
+}
+fn check_value0<T: Flt>(bad: &mut Vec<String>, what: &str, got: T, terms: &[T], tag: &str) {
     let n = terms.len() as f64;
     match neg_exact_sum(terms) {
         Some((exact, abs)) => {
@@ -107,7 +113,7 @@ fn run_type<T: Flt>(cfg: &Cfg, rep: &mut Report, rng: &mut Lcg) {
                 }
                 bad
             });
-            match r { Err(m) => rep.fail_p(cfg, &case, "C10", "entropy family panicked", json!({"panic": m})), Ok(bad) => if !bad.is_empty() { rep.fail_p(cfg, &case, "C10", bad[0].split(" | ").next().unwrap_or(""), json!({"problems": bad})); } }
+            match r { Err(m) => rep.fail_p(cfg, &case, "C10", "entropy family panicked", json!({"panic": m})), Ok(bad) => if !bad.is_empty() { { let lay = bad.iter().find(|b| b.starts_with("LAYOUT ")).cloned(); let other = bad.iter().find(|b| !b.starts_with("LAYOUT ")).cloned(); if let Some(l) = lay { rep.fail_p(cfg, &case, "C10,C20", l.split(" | ").next().unwrap_or(""), json!({"problems": bad})); } if let Some(o) = other { rep.fail_p(cfg, &case, "C10", o.split(" | ").next().unwrap_or(""), json!({"problems": bad})); } }; } }
             rep.eval(&case, size >= 2);
             if rep.stop { return; }
         }
